@@ -163,6 +163,8 @@ class Check:
             else:
                 new.append(v)
         REPLAY_DIR.mkdir(parents=True, exist_ok=True)
+        for old in REPLAY_DIR.glob(f"{self.pid}-*.json"):
+            old.unlink()
         out_lines: list[str] = []
         for i, v in enumerate(new):
             path = REPLAY_DIR / f"{self.pid}-{i}.json"
